@@ -457,3 +457,103 @@ func init() {
 	t3 := c14Params{L: 4, retain: 2, pause: 5, losts: []int{1, 2, 65535}, second: true}
 	register("thorough", &h.Scenario{Name: "C14-L4-retain2-second-sender-P2", Prop: "C14", P: 2, F: 0, D: 2, Run: c14Run(t3), Check: c14Oracle(t3)})
 }
+
+// c14LostDuringWrite: a lost indication arrives while a Send is inside the socket write (its message
+// on the wire, not yet retained). Whichever of the two the client puts first, the retransmission is
+// the last min(k, retained) messages of the history as it stood then - [m1.. ] without or with the
+// message in flight - in their original order; nothing else is acceptable.
+func c14LostDuringWrite() func() {
+	return func() {
+		sock := fakesock.New("udp")
+		sock.LogHandoff = true
+		pre := 1 + mc.Choose(2, mc.Free) // messages retained before
+		slowID := pre
+		slowDone := false
+		sock.WriteTime = func(v knxnet.ServicePackable) mc.Duration {
+			if ind, ok := v.(*knxnet.RoutingInd); ok && MsgID(ind.Payload) == slowID && !slowDone {
+				slowDone = true // (only the first transmission of that message is slow)
+				return 5 * ms
+			}
+			return 0
+		}
+		r, _ := knx.NewRouterOnSocket(sock, knx.RouterConfig{RetainCount: 4, PostSendPauseDuration: 2 * ms})
+		mc.GoEnv("reader", func() {
+			for {
+				if _, ok := r.Inbound().Recv2(); !ok {
+					return
+				}
+			}
+		})
+		for i := 0; i < pre; i++ {
+			r.Send(Msg(i))
+			mc.Sleep(5 * ms)
+		}
+		k := []int{1, 2, 3, 65535}[mc.Choose(4, mc.Free)]
+		mc.GoEnv("sender", func() {
+			mc.Log(Op{"send", slowID, false})
+			r.Send(Msg(slowID))
+		})
+		mc.Sleep(1 * ms)
+		mc.Log(Op{"lost", k, false})
+		deliverLost(sock, k)
+		mc.Sleep(1000 * ms)
+		mc.Log(Op{"end", pre, false})
+		r.Close()
+	}
+}
+
+func c14LostDuringWriteOracle(tr *mc.Trace) []h.Violation {
+	vs := generic(tr, "C14", true)
+	pre, k := 0, -1
+	lostAt := mc.Duration(-1)
+	var resent []int
+	firstTx := map[int]bool{}
+	for _, e := range tr.Log {
+		switch x := e.V.(type) {
+		case Op:
+			switch x.Kind {
+			case "lost":
+				k, lostAt = x.Arg, e.T
+			case "end":
+				pre = x.Arg
+			}
+		case fakesock.Sent:
+			ind, ok := x.Svc.(*knxnet.RoutingInd)
+			if !ok || x.Err != nil {
+				continue
+			}
+			id := MsgID(ind.Payload)
+			if !firstTx[id] {
+				firstTx[id] = true
+				continue
+			}
+			if lostAt >= 0 {
+				resent = append(resent, id)
+			}
+		}
+	}
+	if tr.Reason != "main-returned" || k < 0 {
+		return vs
+	}
+	last := func(hist []int) []int {
+		n := k
+		if n > len(hist) {
+			n = len(hist)
+		}
+		return hist[len(hist)-n:]
+	}
+	var without, with []int
+	for i := 0; i < pre; i++ {
+		without = append(without, i)
+	}
+	with = append(append([]int{}, without...), pre)
+	a, b := last(without), last(with)
+	if fmt.Sprint(resent) != fmt.Sprint(a) && fmt.Sprint(resent) != fmt.Sprint(b) {
+		vs = append(vs, h.Violation{Class: "C14:resend-differs:lost-during-a-write", Msg: fmt.Sprintf("messages 0..%d were retained, message %d was inside the socket write when lost(%d) arrived; the client retransmitted %v; acceptable: %v (the indication first) or %v (the message first)", pre-1, pre, k, resent, a, b)})
+	}
+	return vs
+}
+
+func init() {
+	register("both", &h.Scenario{Name: "C14-lost-indication-during-a-socket-write", Prop: "C14", P: 1, F: 0, D: 1, Run: c14LostDuringWrite(), Check: c14LostDuringWriteOracle})
+}
